@@ -466,6 +466,14 @@ def run(ctx):
             return False, 'helper %s: joined vector is not built by a single push loop' % short(H.id)
         src = strip(lb['source'])
         unad = is_call(src, 'slice::<impl [T]>::iter') and strip(src[2][0])[0] == 'arg'
+        if not unad and is_call(src, 'Iterator::flatten') and src[2]:
+            # `for b in backends.into_iter().flatten()` over an Option<&Vec<Backend>> parameter: every backend of the list, or none
+            s2 = strip(src[2][0])
+            while s2[0] == 'call' and s2[2] and re.search(r'IntoIterator::into_iter$|Option::<T>::into_iter$|Option::<T>::iter$', s2[3] if len(s2) > 3 else s2[1]):
+                s2 = strip(s2[2][0])
+            if s2[0] == 'arg' and H.local_ty(s2[1]).startswith('std::option::Option<&'):
+                unad = True
+                src = ('call', 'core::slice::<impl [T]>::iter', [s2], 'core::slice::<impl [T]>::iter', '')
         elem = strip(lb['elem'])
         # elem = payload Some of section(backend) ; skipped exactly when section(backend) is None
         call_ = elem[1] if elem[0] == 'payload' and elem[2] == 'Some' else None
